@@ -277,6 +277,15 @@ def N3(ctx: Ctx) -> RuleResult:
                 for t, p in norm_guards(rg):
                     if not p and val == Const(False):
                         note_test(t, e.iter)
+        if o.kind == 'return' and o.value == Const(False):
+            # if not all(arg.can_be(param) for ...): return False
+            for t, p in norm_guards(o.guards):
+                if isinstance(t, Call) and isinstance(t.func, Ext) and t.args and isinstance(t.args[0], Comp) and len(t.args[0].gens) == 1 and not t.args[0].gens[0][2]:
+                    comp = t.args[0]
+                    if t.func.name == 'all' and not p:
+                        note_test(comp.elt, comp.gens[0][1])
+                    elif t.func.name == 'any' and p and isinstance(comp.elt, Op) and comp.elt.op == 'not':
+                        note_test(comp.elt.args[0], comp.gens[0][1])
         if o.kind == 'return':
             # return all(arg.can_be(param) for ...) [and all(...)]
             for x in walk(o.value):
